@@ -313,6 +313,16 @@ def check_conversion(ctx: Ctx, rep: Report, err_base: ClassInfo) -> None:
                 tnode = fcfg.node_of(node) or next((fcfg.node_of(st) for st in node.body if fcfg.node_of(st) is not None), None)
                 if tnode is not None and fcfg.exit.id not in fcfg.reachable(tnode):
                     allowed = True
+                elif tnode is not None and fn.name.startswith("_"):
+                    # ... also when the block sits in a private helper every call of which is followed by a refusal
+                    sites = [(g, c) for g in reach.values() for c in own_nodes(g.node) if isinstance(c, ast.Call) and any(isinstance(k, FuncInfo) and k.key == fn.key for k in ctx.r.callees(g, c))]
+                    if sites:
+                        allowed = True
+                        for g, c in sites:
+                            gcfg = ctx.cfg(g)
+                            cnode = cfg_node_of(gcfg, c)
+                            if cnode is None or gcfg.exit.id in gcfg.reachable(cnode):
+                                allowed = False
                 rep.check(
                     not forced or allowed,
                     "C08-R5",
